@@ -303,7 +303,7 @@ def check_optimality(case, ctx):
     held = getattr(loss, "prob_dists_q", None)
     if ctx.check(held is not None and len(held) == len(empi), "loss_holds_the_given_data:len", f"{None if held is None else len(held)}"):
         for j, (hq, (_, qj)) in enumerate(zip(held, empi)):
-            ctx.equal(np.asarray(hq, dtype=float), np.asarray(qj, dtype=float), "loss_holds_the_given_data", f"schedule {j}")
+            ctx.equal(np.asarray(hq, dtype=float).reshape(-1), np.asarray(qj, dtype=float).reshape(-1), "loss_holds_the_given_data", f"schedule {j}")
     if det.k >= case["max_iter"] or c10.proj_cap_hit(ctx):
         ctx.skip("max-iteration")
         return
